@@ -16,6 +16,12 @@ import VerifModel.Spec.Dataset
   the dimension sizes, the variables in file order (shape + cells, a cell being masked or a
   value: `NcCell`), and the global attributes the reader looks at.  An optional variable is
   present iff it occurs in `vars`.
+
+  Coordinate variables (time, leadtime, location, lat, lon, altitude, threshold, quantile) go
+  through `verif.util.clean` exactly like the data variables: an entry that is masked / the
+  fill value, NaN, -999 or above 1e30 is NaN in the attribute (`NcVars.vec`, `cleanArr`).
+  What `verif.data.Data` makes of such an input is `ncData`: `Data.init` on `NcInput.dataInput`
+  (`_get_common_indices` removes NaN times / lead times / location ids, data.py:674-675).
 -/
 namespace VerifModel
 open Spec
@@ -171,6 +177,33 @@ def NcInput.dataset (I : NcInput) : Dataset where
   x := I.quantileScores
   others := I.others.filter fun p => !spuriousOther.contains p.1
   var := { name := I.varName, units := I.units, x0 := I.x0, x1 := I.x1 }
+
+/-! ### the NetCDF input under `verif.data.Data` -/
+
+/-- a `(time, leadtime, location)` variable as the nested array `Data` indexes (`a[t, l, x]`);
+any other rank has no cells -/
+def Arr.toArr3 (a : Arr) : Arr3 :=
+  match a.dims with
+  | [nt, nl, nx] =>
+    (List.range nt).map fun t => (List.range nl).map fun l => (List.range nx).map fun x =>
+      a.data.getD ((t * nl + l) * nx + x) .nan
+  | _ => []
+
+/-- the NetCDF input as `Data` sees it: coordinates (NaN where the file has a missing entry) and the
+3-D fields obs, fcst, pit and the other fields -/
+def NcInput.dataInput (I : NcInput) : Input where
+  times := I.times
+  leads := I.leads
+  locs := I.locs
+  fields := ((([("obs", I.obs), ("fcst", I.fcst), ("pit", I.pit)] : List (String × Option Arr)).filterMap
+      fun p => p.2.map fun a => (p.1, a.toArr3))
+    ++ (I.others.filter fun p => !spuriousOther.contains p.1).map fun p => (p.1, p.2.toArr3))
+
+/-- `verif.data.Data([verif.input.get_input(file)])` for a file that shows `V` -/
+def ncData (V : NcVars) (cfg : Cfg := {}) : Except String DataS :=
+  match ncAssemble V with
+  | .error e => .error e
+  | .ok I => Data.init [I.dataInput] cfg
 
 /-! ### format detection -/
 
